@@ -38,7 +38,7 @@ CLAIMED = {
 
  "C14": dict(
    level="exploration",
-   text="One real node (consensus processor with timer-driven bundling and the real mempool): 4..40/120 seeded operations mixing transaction arrivals (valid, two-input, conflicting, duplicate), staging and bundling ticks, peer blocks that confirm / partially spend / conflict with pooled transactions, invalid peer blocks and a peer fork that reorganises away the last block. After every operation a reference view of the pool is checked: no shared inputs, every pooled transaction valid against the ledger, reservations subset of pooled inputs, routing-work cache exact, bundling all-or-nothing, and an active probe that an unreserved unspent output can be spent by a fresh transaction. Later additions: payments routed to the node (routing work cache), two-input transaction conflicting on its second input, sibling of the tip spending a reserved input, reservations must equal the pooled inputs (both directions). Rounds 5-6: a refused block under the node's own key whose transactions are handed back to the pool. Rounds 8-9: nodes that joined mid-chain; transactions whose input a held block already spent. After round 9: a staking family (one run in six) - a self-started producer with social staking on whose staking transaction goes into every block through the pool, payments by the producer's own key, and an Issuance-typed pool entry that makes the next bundled block one the node refuses; same oracle.",
+   text="One real node (consensus processor with timer-driven bundling and the real mempool): 4..40/120 seeded operations mixing transaction arrivals (valid, two-input, conflicting, duplicate), staging and bundling ticks, peer blocks that confirm / partially spend / conflict with pooled transactions, invalid peer blocks and a peer fork that reorganises away the last block. After every operation a reference view of the pool is checked: no shared inputs, every pooled transaction valid against the ledger, reservations subset of pooled inputs, routing-work cache exact, bundling all-or-nothing, and an active probe that an unreserved unspent output can be spent by a fresh transaction. Later additions: payments routed to the node (routing work cache), two-input transaction conflicting on its second input, sibling of the tip spending a reserved input, reservations must equal the pooled inputs (both directions). Rounds 5-6: a refused block under the node's own key whose transactions are handed back to the pool. Rounds 8-9: nodes that joined mid-chain; transactions whose input a held block already spent. After round 9: a staking family (one run in six) - a self-started producer with social staking on whose staking transaction goes into every block through the pool, payments by the producer's own key, and an Issuance-typed pool entry that makes the next bundled block one the node refuses; same oracle plus: no staking transaction left in the pool at a quiescent point, and a bundled block is refused only when the pool held that entry or a payment under the producer's own key.",
    design="§6 C14",
    note="Trusted: reference ledger, universe builder for peer blocks; the probe transaction is removed again after the probe.",
    technique="deterministic simulation: seeded interleavings of pool / bundling / peer-block / reorg operations + reference pool model with active spendability probe"),
